@@ -185,7 +185,7 @@ let op_name = function
 let () =
   run_file Sys.argv.(1) (fun _ sx ->
     match sx with
-    | [L [A "in"; A tr; _endpoint; backend; op];
+    | [L (A "in" :: A tr :: _endpoint :: backend :: op :: seq);
        L [A "drv"; L [A "ep"; epp]; L (A "answers" :: answers); ext; L [A "tree"; tree]; L (A "dmeta" :: dm)];
        L [A "obs"; L (A "calls" :: calls); out; L [A "stored"; stored]]] ->
       let o = op_of op in
@@ -195,8 +195,11 @@ let () =
         | _ -> None) in
       let is_local = (match backend with L (A "local" :: _) -> true | _ -> false) in
       bump ("op_" ^ op_name o);
-      bump (if is_local then "backend_local" else if foreign <> None then "backend_foreign" else "backend_mem");
+      let is_raw = (match backend with L (A "foreignraw" :: _) -> true | _ -> false) in
+      bump (if is_local then "backend_local" else if foreign <> None || is_raw then "backend_foreign" else "backend_mem");
       bump ("transport_" ^ tr);
+      if seq <> [] then bump "step_of_a_sequence";
+      (match backend with L (A "localx" :: _) -> bump "backend_special_entries" | L [A "local"; _; _] -> bump "root_spelled_uncleanly" | _ -> ());
       let tabs = tables_of ext in
       let x = ext_of_tables tabs in
       (* the tables were computed by the real Go codecs: C16's models must give the same *)
@@ -209,11 +212,19 @@ let () =
       let fs = fs_of_script script in
       let ep = endpoint_path (str epp) in
       let calls = List.map call_of calls in
-      (match outcome_of out with
-       | None -> bump "obs_panic"; Some "agree=0 spec=0 kf=- :: implementation panicked"
-       | Some out ->
+      (match (match out with L [A "tampered"; what] -> Error (string_of_chars (str what)) | _ -> Ok (outcome_of out)) with
+       | Error what -> bump "obs_tampered"; Some ("agree=0 spec=0 kf=- :: the code under test modified " ^ what)
+       | Ok None -> bump "obs_panic"; Some "agree=0 spec=0 kf=- :: implementation panicked"
+       | Ok (Some out) ->
          bump (match out with OErr _ -> "out_err" | _ -> "out_ok");
-         if calls <> [] || foreign <> None then note_nontrivial (show (List.hd sx));
+         if calls <> [] || foreign <> None || is_raw then note_nontrivial (show (List.hd sx));
+         match backend with
+         | L [A "foreignraw"; st; _ctype; body] ->
+           let m = read_plain x o (n_of_int (int_ st)) (str body) in
+           bump "foreign_raw";
+           let agree = outcome_eqb m out in
+           if agree then None else verdict ~agree ~spec:true ~kf:"-" ~detail:("model reads: " ^ show_out m)
+         | _ ->
          match foreign with
          | Some resp ->
            (* only the client half: the model's reading of the scripted answer; the
@@ -252,6 +263,8 @@ let () =
                          bad "href-enc" href_enc_agrees tabs.tb_href_enc ^ bad "href-dec" href_dec_agrees tabs.tb_href_dec ^
                          bad "quote" (quote_agrees (iph_of_list (hi_of ext))) tabs.tb_quote ^ bad "unquote" unquote_agrees tabs.tb_unquote ^
                          bad "time-fmt" time_fmt_agrees tabs.tb_time_fmt ^ bad "time-parse" time_parse_agrees tabs.tb_time_parse)))
+    | [L (A "in" :: _); L [A "drv"]; L [A "obs"; _; L [A "tampered"; what]]] ->
+      bump "obs_tampered"; Some ("agree=0 spec=0 kf=- :: the code under test modified " ^ string_of_chars (str what))
     | [L (A "in" :: _); L [A "drv"]; L [A "obs"; _; L [A "panic"]]] ->
       bump "obs_panic"; Some "agree=0 spec=0 kf=- :: implementation panicked"
     | _ -> raise (Parse_error "line"))
